@@ -166,6 +166,8 @@ FOSmall == { f \in FODomain : (f.ot.variable = 1 /\ f.ot.priority = 0 /\ f.ot.ty
 EmitFO(f) == PrintT(ToJson([k |-> "fwd", f |-> f, large |-> IsLargeFO(f.ot, f.to), b |-> EncForwardOpen(f),
                             rpy |-> EncForwardOpenReply(f, <<64, 66, 15, 0>>, <<128, 132, 30, 0>>), fail |-> EncForwardOpenFail(f, 1, <<256>>),
                             close |-> EncForwardClose(f), closerpy |-> EncForwardCloseReply(f),
+                            \* a failure reply for a routing error also tells how many words of the path remained: none, or some
+                            failrp |-> [ n \in 1 .. 2 |-> [rps |-> n - 1, b |-> EncForwardOpenFail(f, 1, <<785>>) \o <<n - 1, 0>>] ],
                             apps |-> [ n \in 1 .. 4 |-> LET app == SubSeq(<<7, 8, 9, 10>>, 1, n) IN
                                        [app |-> app, rpy |-> EncForwardOpenReplyApp(f, <<64, 66, 15, 0>>, <<128, 132, 30, 0>>, app),
                                         closerpy |-> EncForwardCloseReplyApp(f, app)] ]]))
